@@ -250,6 +250,12 @@ end withNames
 
 /-! ## what the theorems speak about (executable) -/
 
+/-- the tokens of the objects of a value's context -/
+def ctxTokens (ctx : Option (Nat × TSlots)) : List Nat :=
+  match ctx with
+  | some (c, cs) => tokens (.dict c cs)
+  | none => []
+
 /-- the token-level hypothesis: the variable's objects are older than the counter and none of them is an object
 of the value -/
 def sepB (next : Nat) (vcTok : Nat) (vc : TSlots) (ctx : Option (Nat × TSlots)) : Bool :=
